@@ -543,7 +543,12 @@ func tweak(r *prng.Rng, v reflect.Value, depth int) {
 			switch f.Kind() {
 			case reflect.Slice:
 				if f.Type().Elem().Kind() == reflect.Uint8 {
-					continue // a bytes field with explicit presence: nil and empty differ in meaning
+					// a bytes field with explicit presence: nil and empty differ in meaning; without presence
+					// (proto3) a non-nil empty slice is the same contents as nil
+					if implicitBytes(sf) && f.Len() == 0 && r.Chance(1, 2) && f.CanSet() {
+						f.Set(reflect.MakeSlice(f.Type(), 0, 4))
+					}
+					continue
 				}
 				if f.IsNil() && r.Chance(1, 3) && f.CanSet() {
 					f.Set(reflect.MakeSlice(f.Type(), 0, 0))
